@@ -283,16 +283,8 @@ STRUCTURAL = ("prod-init", "ex-init", "prod-cont-token", "prod-cont-raise", "ex-
 
 
 def _shard(n: int) -> int:
-    """case files: few and large (strings travel packed, a case is a handful of numerals)"""
-    return max(500, min(2500, -(-n // 8)))
-
-
-def cpack(s: str) -> str:
-    """str -> one N literal: little-endian base 2^21 digits (code point + 1); M_Negotiate.unpack inverts it"""
-    n = 0
-    for ch in reversed(s):
-        n = n * 2097152 + ord(ch) + 1
-    return f"{n}%N"
+    """case files: 400..600 cases each, at most ~12 files per call so that they run in one parallel round"""
+    return max(400, min(600, -(-n // 12)))
 
 
 def translate(ctx: Any) -> None:
@@ -373,10 +365,6 @@ def run(ctx: Any) -> None:
     ctx.log("environment facts checked")
     ctx.obligation("env:zstd-available", "environment", tuple(available_encodings()) == (Encoding.ZSTD, Encoding.GZIP), str(available_encodings()))
 
-    probe = ["", "gzip", " ZSTD;q=0 ,\tidentity", "\x00\U0010ffff\xa0", "a" * 80] + UNICODE[:6]
-    okp, outp = ctx.coq_eval(HDR, "Eval vm_compute in (forallb (fun p => list_eqb N.eqb (unpack (fst p)) (snd p)) [" + "; ".join(f"({cpack(x)}, {cstr(x)})" for x in probe) + "]).")
-    ctx.obligation("harness:string-packing", "harness", okp and "= true" in outp, outp[-300:])
-
     # ---- (1) parse_encoding_list ------------------------------------------------------------------------
     strings: list[str] = []
     for n in range(0, 4 if quick else 5):
@@ -412,15 +400,15 @@ def run(ctx: Any) -> None:
         # the oracle uses ASCII folding; Python lower() of non-ASCII cannot produce a word (env obligation above)
         if got != exp:
             ctx.violation("parse-not-entry-names", "parse_encoding_list differs from the entries of the header", {"header": s, "parsed": got, "entries": exp})
-        parse_cases.append((cpack(s), clist(cN(c) for c in got)))
+        parse_cases.append((cstr(s), clist(cN(c) for c in got)))
         ctx.count("impl_runs")
     ctx.log(f"parse: {len(parse_cases)} strings run on the implementation")
-    ok, bad, clog = ctx.coq_mismatches(HDR, "run_parse_packed", "list_eqb N.eqb", parse_cases, "N", "list N", shard=_shard(len(parse_cases)))
+    ok, bad, clog = ctx.coq_mismatches(HDR, "run_parse", "list_eqb N.eqb", parse_cases, "list N", "list N", shard=_shard(len(parse_cases)))
     ctx.count("model_cases", len(parse_cases))
     ctx.obligation("correspondence:M_Negotiate.run_parse", "correspondence", ok and not bad, clog if not ok else f"{len(bad)} of {len(parse_cases)} strings disagree")
     for i in bad[:3]:
         ctx.violation("model-impl-disagree-parse", "parse_encoding_list and the model parse differently",
-                      {"header": strings[i], "impl": [e.value for e in parse_encoding_list(strings[i])], "model": ctx.coq_show(HDR, f"run_parse_packed {parse_cases[i][0]}")})
+                      {"header": strings[i], "impl": [e.value for e in parse_encoding_list(strings[i])], "model": ctx.coq_show(HDR, f"run_parse {parse_cases[i][0]}")})
 
     # ---- (2)+(3) responses --------------------------------------------------------------------------------
     model_cases: list[tuple[str, str]] = []
@@ -468,7 +456,7 @@ def run(ctx: Any) -> None:
                     ctx.violation("announced-on-vgi-header-not-offered-there", "X-VGI-Content-Encoding used but the coding was not offered in X-VGI-Accept-Encoding", repl)
                 if hk == 1 and got not in spec_names(std):
                     ctx.violation("announced-on-standard-header-not-offered-there", "Content-Encoding used but the coding was not offered in Accept-Encoding", repl)
-        inp = f"({clist(cN(c) for c in cfg_codes)}, {copt(None if std is None else cpack(std))}, {copt(None if cus is None else cpack(cus))}, ({cbool(arrow)}, {cbool(owns)}, {cbool(nonempty)}, {cbool(iobase)}))"
+        inp = f"({clist(cN(c) for c in cfg_codes)}, {copt(None if std is None else cstr(std))}, {copt(None if cus is None else cstr(cus))}, ({cbool(arrow)}, {cbool(owns)}, {cbool(nonempty)}, {cbool(iobase)}))"
         model_cases.append((inp, f"({cN(hk)}, {cN(he)}, {cN(bc)})"))
         replays.append(repl)
 
@@ -482,11 +470,11 @@ def run(ctx: Any) -> None:
     for cfg in cfgs:
         client = middleware_client(cfg)
         levels = {NAMES[c] for c in cfg if c in (1, 2)}
-        for sl, cl in (pairs if (3 not in cfg or not quick) else rng.sample(pairs, 64)):
+        for sl, cl in pairs:
             std, cus = decorate(rng, sl), decorate(rng, cl)
             r = client.simulate_post("/arrow", headers=hdrs(std, cus))
             check_case("middleware", cfg, levels, std, cus, "arrow", r, PLAIN, MW_KINDS["arrow"])
-        for _ in range(60 if quick else 1500):
+        for _ in range(150 if quick else 1500):
             std, cus = raw_list(rng, latin_wide), raw_list(rng, latin_wide)
             kind = rng.choice(["arrow", "arrow", "arrow", "empty", "text", "data"])
             r = client.simulate_post("/" + kind, headers=hdrs(std, cus))
@@ -495,7 +483,7 @@ def run(ctx: Any) -> None:
         # exhaustive raw lists of length <= 2 over a 9-token alphabet for both headers
         small = ["zstd", "gzip", "identity", "br", "GZIP;q=0", " Identity ", "", "*", "zstd;q=0.5"]
         raws = [None] + [",".join(c) for n in range(1, 3) for c in itertools.product(small, repeat=n)]
-        for cfg in ([1, 2], [2], [1]):
+        for cfg in ([1, 2], [2]):
             client = middleware_client(cfg)
             for std in raws:
                 for cus in raws:
@@ -510,13 +498,13 @@ def run(ctx: Any) -> None:
         ctx.obligation(f"harness:factory-app-{'+'.join(sorted(levels)) or 'none'}", "harness", not problems, "; ".join(problems))
         for kind, (path, body) in bodies.items():
             owns = kind.startswith("prod-cont")
-            full = (kind in ("prod-cont-token", "prod-cont-finish") and cfg) or not quick
-            these = pairs if full else rng.sample(pairs, 32 if not owns else 48)
+            full = kind in ("prod-cont-token", "prod-cont-finish") or not quick
+            these = pairs if full else rng.sample(pairs, 64)
             for sl, cl in these:
                 std, cus = decorate(rng, sl), decorate(rng, cl)
                 r = client.simulate_post(path, body=body, headers=hdrs(std, cus))
                 check_case("factory", cfg, levels, std, cus, kind, r, refs[kind], (True, owns, True, True), kind in STRUCTURAL)
-            for _ in range(20 if quick else 400):
+            for _ in range(30 if quick else 400):
                 std, cus = raw_list(rng, latin_wide), raw_list(rng, latin_wide)
                 r = client.simulate_post(path, body=body, headers=hdrs(std, cus))
                 check_case("factory", cfg, levels, std, cus, kind, r, refs[kind], (True, owns, True, True), kind in STRUCTURAL)
@@ -535,13 +523,13 @@ def run(ctx: Any) -> None:
     ctx.sample({"encode_set": ["gzip"], "Accept-Encoding": "identity, gzip", "X-VGI-Accept-Encoding": "zstd", "expected": "no coding"})
     ctx.sample({"encode_set": ["gzip", "zstd"], "Accept-Encoding": None, "X-VGI-Accept-Encoding": "GZIP;q=0", "expected": "X-VGI-Content-Encoding: gzip"})
 
-    ok, bad, clog = ctx.coq_mismatches(HDR, "run_case_packed", "fun a b => N.eqb (fst (fst a)) (fst (fst b)) && N.eqb (snd (fst a)) (snd (fst b)) && N.eqb (snd a) (snd b)",
-                                       model_cases, "list N * option N * option N * (bool * bool * bool * bool)", "N * N * N", shard=_shard(len(model_cases)))
+    ok, bad, clog = ctx.coq_mismatches(HDR, "run_case", "fun a b => N.eqb (fst (fst a)) (fst (fst b)) && N.eqb (snd (fst a)) (snd (fst b)) && N.eqb (snd a) (snd b)",
+                                       model_cases, "list N * option (list N) * option (list N) * (bool * bool * bool * bool)", "N * N * N", shard=_shard(len(model_cases)))
     ctx.count("model_cases", len(model_cases))
     ctx.obligation("correspondence:M_Negotiate.run_case", "correspondence", ok and not bad, clog if not ok else f"{len(bad)} of {len(model_cases)} cases disagree")
     for i in bad[:5]:
         ctx.violation("model-impl-disagree", "implementation and model respond differently",
-                      {**replays[i], "impl(hk,he,bc)": model_cases[i][1], "model": ctx.coq_show(HDR, f"run_case_packed {model_cases[i][0]}")})
+                      {**replays[i], "impl(hk,he,bc)": model_cases[i][1], "model": ctx.coq_show(HDR, f"run_case {model_cases[i][0]}")})
     ctx.exhaustive = False
     ctx.assumptions += [
         "zstd / gzip decompress(compress(b)) = b for the middleware's compressors and for pyarrow.CompressedOutputStream (Section hypotheses of C19_decoded_body_same; exercised on every case by decoding the real bodies)",
@@ -552,15 +540,21 @@ def run(ctx: Any) -> None:
     ]
 
 
-def replay(ctx: Any, path: str) -> int:
-    """Re-run one recorded case against the tree under test; exit 1 iff the recorded violation key shows again."""
-    import json
-
+def replay(ctx: Any, rec: Any) -> int:
+    """Re-run one recorded case (the loaded replay file) against the tree under test; the violation is raised again
+    through ctx.violation iff the real code still misbehaves on it."""
     from vgi_rpc._codec import parse_encoding_list
     from vgi_rpc.metadata import CALL_STATE_KEY, STATE_KEY
 
-    rec = json.loads(open(path).read())
-    rp, key = rec.get("replay", {}), rec.get("key")
+    if not isinstance(rec, dict):
+        import json
+
+        rec = json.loads(open(rec).read())
+    rp, key = rec.get("replay", {}), rec.get("key") or "replayed-case"
+    if "kind" not in rp and "header" not in rp:
+        print("no single failing input recorded (broken obligation only): re-running the whole check")
+        run(ctx)
+        return 0
     if "header" in rp and "app" not in rp:
         got = [e.value for e in parse_encoding_list(rp["header"])]
         exp: list[str] = []
@@ -568,6 +562,8 @@ def replay(ctx: Any, path: str) -> int:
             if n in CODES and n not in exp:
                 exp.append(n)
         print(f"parse_encoding_list({rp['header']!r}) = {got}; entries say {exp}")
+        if got != exp:
+            ctx.violation(key, "parse_encoding_list differs from the entries of the header (replayed)", rp)
         return int(got != exp)
     cfg, std, cus, kind = rp["cfg"], rp.get("Accept-Encoding"), rp.get("X-VGI-Accept-Encoding"), rp["kind"]
     levels = {NAMES[c] for c in cfg if c in (1, 2)}
@@ -595,4 +591,7 @@ def replay(ctx: Any, path: str) -> int:
     print(f"  announced: {['none', 'Content-Encoding', 'X-VGI-Content-Encoding'][hk]} {got!r}; body bytes coding {bc}; first producible entry {want!r}; "
           f"decoded body identical: {same}; header offered there: {hdr_ok}")
     bad = bool(problems2) or not same or (he if hk else 0) != bc or (applies and (got != want or not hdr_ok))
+    print("  -> " + ("REPRODUCED" if bad else "not reproduced on this tree"))
+    if bad:
+        ctx.violation(key, rec.get("what", "replayed case misbehaves"), rp)
     return int(bad)
